@@ -576,9 +576,10 @@ def _items_contain_spec(trial_dict, items):
             return False
     return True
 
+CALLABLE_NAMES = ["valida.callables:equal_to", "valida.callables:not_equal_to", "valida.callables:less_than", "valida.callables:greater_than", "valida.callables:less_than_or_equal_to", "valida.callables:greater_than_or_equal_to", "valida.callables:in_", "valida.callables:not_in", "valida.callables:in_range", "valida.callables:not_in_range", "valida.callables:factor_of", "valida.callables:has_factor", "valida.callables:equal_to_approx", "valida.callables:truthy", "valida.callables:falsy", "valida.callables:null", "valida.callables:is_instance", "valida.callables:keys_contain", "valida.callables:keys_contain_any_of", "valida.callables:keys_contain_all_of", "valida.callables:keys_contain_N_of", "valida.callables:keys_contain_at_least_N_of", "valida.callables:keys_contain_at_most_N_of", "valida.callables:keys_contain_one_of", "valida.callables:keys_contain_at_least_one_of", "valida.callables:keys_contain_at_most_one_of", "valida.callables:keys_equal_to", "valida.callables:keys_is_instance", "valida.callables:allowed_keys", "valida.callables:required_keys", "valida.callables:forbidden_keys", "valida.callables:items_contain"]
 function_family(
     name="callables",
-    members=["valida.callables:equal_to", "valida.callables:not_equal_to", "valida.callables:less_than", "valida.callables:greater_than", "valida.callables:less_than_or_equal_to", "valida.callables:greater_than_or_equal_to", "valida.callables:in_", "valida.callables:not_in", "valida.callables:in_range", "valida.callables:not_in_range", "valida.callables:factor_of", "valida.callables:has_factor", "valida.callables:equal_to_approx", "valida.callables:truthy", "valida.callables:falsy", "valida.callables:null", "valida.callables:is_instance", "valida.callables:keys_contain", "valida.callables:keys_contain_any_of", "valida.callables:keys_contain_all_of", "valida.callables:keys_contain_N_of", "valida.callables:keys_contain_at_least_N_of", "valida.callables:keys_contain_at_most_N_of", "valida.callables:keys_contain_one_of", "valida.callables:keys_contain_at_least_one_of", "valida.callables:keys_contain_at_most_one_of", "valida.callables:keys_equal_to", "valida.callables:keys_is_instance", "valida.callables:allowed_keys", "valida.callables:required_keys", "valida.callables:forbidden_keys", "valida.callables:items_contain"],
+    members=CALLABLE_NAMES,
     raises=['TypeError', 'AttributeError', 'ZeroDivisionError', 'ValueError'],
     result_is_bool=True,
 )
